@@ -50,6 +50,33 @@ func loadCase(spec string, file []byte) string {
 	return fmt.Sprintf("load %s %s => %s | D%s", spec, fh, res, imageOf(spec, c.Mem))
 }
 
+func load2Case(spec string, fa, fb []byte) string {
+	pend("load2 %s %s %s", spec, hex.EncodeToString(fa), hex.EncodeToString(fb))
+	p := filepath.Join(tmpDir(), "prog.bin")
+	cfg := emuconfig.DefaultConfig()
+	cfg.MemSpec = spec
+	c, err := cfg.NewCpu()
+	if err != nil {
+		panic(err)
+	}
+	res := []string{}
+	for _, f := range [][]byte{fa, fb} {
+		os.WriteFile(p, f, 0600)
+		var a, l uint16
+		var lerr error
+		crashed := protect(func() { a, l, lerr = c.Load(p) })
+		switch {
+		case crashed:
+			res = append(res, "hostcrash")
+		case lerr != nil:
+			res = append(res, "err")
+		default:
+			res = append(res, fmt.Sprintf("ok_%d_%d", a, l))
+		}
+	}
+	return fmt.Sprintf("load2 %s %s %s => %s | D%s", spec, hex.EncodeToString(fa), hex.EncodeToString(fb), strings.Join(res, ";"), imageOf(spec, c.Mem))
+}
+
 func preloadCase(spec string, addr uint16, data []byte) string {
 	p := filepath.Join(tmpDir(), "rom.bin")
 	os.WriteFile(p, data, 0600)
@@ -82,6 +109,10 @@ func loadStream(seed uint64, n int, tier string) {
 		b := make([]byte, n)
 		for i := range b {
 			b[i] = r.Byte() | 1
+			if r.Chance(10) {
+				// programs contain zero bytes (BRK, operands, tables): they are stored like any other byte
+				b[i] = 0
+			}
 		}
 		return b
 	}
@@ -108,6 +139,23 @@ func loadStream(seed uint64, n int, tier string) {
 		}
 		emit(preloadCase(spec, 0x0200, payload(700)))
 		count("preload")
+		// two files loaded one after the other into the same machine: the second is placed by the same rule, whatever
+		// the first left behind
+		for i := 0; i < 4+n/8; i++ {
+			h := rng.PickU16(r, headers)
+			if i%2 == 1 {
+				h = r.Word()
+			}
+			fa := mk(h, 1+r.Intn(120))
+			fb := mk(h+uint16(r.Intn(8)), 1+r.Intn(120))
+			if i%4 == 0 {
+				for j := 2; j < len(fb); j += 2 {
+					fb[j] = 0
+				}
+			}
+			emit(load2Case(spec, fa, fb))
+			count("load2")
+		}
 	}
 	// the largest file of the property's range: a payload of 65535 bytes (the most a 16-bit length can report)
 	emit(loadCase("Linear64K", mk(0x0000, 65535)))
